@@ -247,6 +247,41 @@ def bounded_write(ctx, rep):
                         ok = True
             rep.ob(rule, "%s | len += 1 after a slot was obtained" % fn, ok,
                    "the increment is dominated by the success edge of output.next().ok_or(())?", b.loc(ln))
+        # an exhausted output buffer is an error, never a shorter result: from the `no slot` edge of every output.next() no
+        # `Ok(..)` return is reachable (`if let Some(slot) = output.next()` would silently drop the byte)
+        oks = [bi for bi in sorted(b.live) for st in b.blocks[bi]["st"]
+               if st["k"] == "assign" and st["p"]["l"] == 0 and not st["p"].get("pr") and st["r"]["k"] == "agg" and st["r"].get("variant") == "Ok"]
+        nexts = [(bi, t) for bi, t in b.calls() if (t.get("callee") or "").endswith("::next") and t["args"] and "output" in show(ir.term_operand(bi, t["args"][0]))]
+        for k_, (nb_, nt_) in enumerate(nexts):
+            cur, via_try, steps, sw = nt_.get("t"), False, 0, None
+            while cur is not None and steps < 6:
+                tt = b.blocks[cur]["term"]
+                if tt["k"] == "switch":
+                    sw = cur
+                    break
+                if tt["k"] == "call":
+                    if "branch" in (tt.get("callee") or tt.get("nf") or ""):
+                        via_try = True
+                    cur = tt.get("t")
+                elif tt["k"] == "goto":
+                    cur = tt["t"]
+                else:
+                    break
+                steps += 1
+            okn = False
+            if sw is not None:
+                want = 1 if via_try else 0
+                tt = b.blocks[sw]["term"]
+                arm = None
+                for v_, tb_ in tt["targets"]:
+                    if v_ == want:
+                        arm = tb_
+                if arm is None and len(tt["targets"]) == 1:
+                    arm = tt["otherwise"]
+                okn = arm is not None and bool(oks) and not any(o in b.reachable_from(arm) for o in oks)
+            rep.ob(rule, "%s | no output slot is an error | %d" % (fn, k_), okn,
+                   "from the `no slot left` edge of output.next() no Ok(..) return is reachable" if okn else
+                   "output.next() returning None can still lead to Ok(..): a full buffer silently truncates the stream", b.loc(nt_.get("ln")))
         # output is the slice iterator over the buffer parameter
         oki = False
         for l, ds in ir.defs.items():
